@@ -4,6 +4,7 @@ level claimed and the clauses that are NOT decided (reported in evidence on ever
 # rule group name -> module.function
 GROUPS = {
     'par': ('rules_par', 'run'),
+    'err': ('rules_err', 'run'),
 }
 
 # property -> dict(groups, rules, level, undecided, trusted)
@@ -56,4 +57,13 @@ PROPS = {
         level_note='Proof modulo the listed trusted base (Range iteration count, mpsc, generic code cannot create a DataSet: only `Send` is known of it). Obligations = rule instances, all must be discharged.',
         undecided=['nothing of the creation bound except what is delegated to the trusted base'],
         trusted=PAR_TRUST),
+    'C14': dict(
+        groups=['err'],
+        rules=['ERR-1', 'ERR-2', 'FILL-1', 'FILL-2', 'FILL-3', 'FILL-4', 'FILL-5'],
+        level='other',
+        technique='static analysis of MIR: linear-resource tracking of every error-carrying Result (moves, explicit Drop terminators, swallowing adaptors), loop-exit classification and guard analysis of the refill loop',
+        level_text='Near-complete for the clauses "never swallowed / kind preserved / Interrupted retried": every call in the readers, writers and constructors whose Result carries io::Error or the crate Error is followed to the return place of its caller on all paths (93 producers), for every source type R and policy P since bodies are analysed before monomorphisation; the refill loop may only stop on full buffer, read of 0 or a non-Interrupted error whose value is the received one. The clause about the records returned before the failure is parsing correctness and is not decided.',
+        level_note='Trusted: rustc drop elaboration (a discarded value is an explicit Drop), `?`/From semantics, buffer_redux read_into_buf returning the source error unchanged.',
+        undecided=['"records returned before the failure are exactly the leading records" (parsing correctness, value-level)'],
+        trusted=COMMON_TRUST + ['buffer_redux::BufReader::read_into_buf forwards the error of the underlying Read unchanged']),
 }
